@@ -191,12 +191,13 @@ fn lazy_steps(cs: &Cs, v: ElementVar, ops: &str) -> SR<OV> {
     Ok(OV::Lazy { steps, vals })
 }
 
-pub const HIST_OPS: &str = "ecvaAksSjdnpmqx";
+pub const HIST_OPS: &str = "ecvaAksSjdnpmqxiu";
 
 /// A history of wrapper operations on ONE `ElementVar` `v` (second operand: the variable `w` / the constant `eb`):
 ///  e force element   c read compress_to_field()   v read value()
 ///  a v += w (owned)  A v += &w   k v += eb (constant)      s v -= w   S v -= &w   j v -= eb
 ///  d double_in_place n v = v.negate()   p v = v + w   m v = v - &w   q v = select(true, v, w)   x v = v.clone()
+///  i read v.is_eq(&w)   u v.enforce_equal(&w)
 fn hist_steps(cs: &Cs, mut v: ElementVar, w: ElementVar, eb: Element, ops: &str) -> SR<OV> {
     let mut steps = vec![cs.num_constraints()];
     let mut reads = vec![];
@@ -218,6 +219,8 @@ fn hist_steps(cs: &Cs, mut v: ElementVar, w: ElementVar, eb: Element, ops: &str)
             'p' => v = <ElementVar as Add<ElementVar>>::add(v.clone(), w.clone()),
             'm' => v = <ElementVar as Sub<&ElementVar>>::sub(v.clone(), &w),
             'q' => v = ElementVar::conditionally_select(&Boolean::constant(true), &v, &w)?,
+            'i' => reads.push(format!("b:{}", val_bo(&v.is_eq(&w)?))),
+            'u' => v.enforce_equal(&w)?,
             _ => v = v.clone(),
         }
         steps.push(cs.num_constraints());
